@@ -30,7 +30,11 @@ inline Plan Gen(uint64_t seed)
    const int eol = (int) cfg.below(3);
    static const uint32_t tss[] = {0, 0, 0, 1, 3, 50};
    const uint32_t ts = tss[cfg.below(6)];
-   p.push_back("cfg prop=C03 gw=" + std::string(kGwNames[gw]) + " enc=" + I(enc) + " lru=" + U(lru) + " eol=" + I(eol) + " minchunk=" + U(minchunk) + " ts=" + U(ts) + " telnet=" + I(cfg.below(2)));
+   const int telnet = (int) cfg.below(2);
+   // renc: the encoding the RECEIVING side uses for Messages it sends the other way (duplex use of one gateway object: its two directions keep separate codec state)
+   const int renc = ((gw == GW_BIN)||(gw == GW_TMPL)) ? (cfg.oneIn(3) ? enc : (int) cfg.below(10)) : 0;
+   const bool duplex = (gw == GW_WS)||(((gw == GW_BIN)||(gw == GW_TMPL))&&(cfg.oneIn(2)));
+   p.push_back("cfg prop=C03 gw=" + std::string(kGwNames[gw]) + " enc=" + I(enc) + " lru=" + U(lru) + " eol=" + I(eol) + " minchunk=" + U(minchunk) + " ts=" + U(ts) + " telnet=" + I(telnet) + " renc=" + I(renc));
    const int faultCls = cfg.oneIn(6) ? 0 : -1;   // one run in six is fault-free (whole-buffer I/O)
    static const char * dirs[] = {"sw", "rr", "rw", "sr"};
    for (const char * d : dirs) p.push_back(std::string("chunks ") + d + " " + SchedToStr(GenChunkSchedule(fl, faultCls)));
@@ -58,7 +62,7 @@ inline Plan Gen(uint64_t seed)
                   static const int bias[4][8] = {{0,0,0,1,1,5,5,2}, {0,1,1,1,2,4,5,5}, {1,1,2,2,3,4,5,5}, {0,1,2,3,3,4,5,2}};
                   cls = bias[sizeBias][wl.below(8)];
                }
-               p.push_back(std::string(((gw == GW_WS)&&(wl.oneIn(4))) ? "rmsg " : "msg ") + U(gs) + " " + I(cls));
+               p.push_back(std::string(((duplex)&&(wl.oneIn((gw == GW_WS) ? 4 : 3))) ? "rmsg " : "msg ") + U(gs) + " " + I(cls));
             }
             queued++;
          }
@@ -67,6 +71,8 @@ inline Plan Gen(uint64_t seed)
          case 5: case 6: p.push_back("in "  + U(wl.oneIn(3) ? (1 + wl.below(wl.oneIn(2) ? 12 : 3000)) : 0)); break;
          default:
             if (gw == GW_WS) p.push_back("back");
+            else if ((duplex)&&(wl.oneIn(2))) p.push_back(wl.oneIn(5) ? ("rsetenc " + I(wl.below(10))) : std::string("back"));
+            else if (((gw == GW_BIN)||(gw == GW_TMPL)||(gw == GW_TEXT)||(gw == GW_SLIP)||((gw == GW_RAW)&&(minchunk == 0)))&&(wl.oneIn((gw == GW_TMPL) ? 4 : 10))) p.push_back("reset");   // both ends Reset() at a quiescent point (a reconnect), then carry on
             else if (((gw == GW_BIN)||(gw == GW_TMPL))&&(wl.oneIn(4))) p.push_back("setenc " + I(wl.below(10)));
             else p.push_back("out 0");
          break;
@@ -97,8 +103,8 @@ struct Harness
       const uint32 lru = (uint32) cfg.i("lru", 1024*1024);
       switch(gw)
       {
-         case GW_BIN:  S.SetRef(new MessageIOGateway(enc)); R.SetRef(new ExactFrame<MessageIOGateway>()); break;
-         case GW_TMPL: S.SetRef(new TemplatingMessageIOGateway(lru, enc)); R.SetRef(new ExactFrame<TemplatingMessageIOGateway>(lru)); break;
+         case GW_BIN:  S.SetRef(new MessageIOGateway(enc)); R.SetRef(new ExactFrame<MessageIOGateway>((int32)(MUSCLE_MESSAGE_ENCODING_DEFAULT + (int) cfg.i("renc", 0)))); break;
+         case GW_TMPL: S.SetRef(new TemplatingMessageIOGateway(lru, enc)); R.SetRef(new ExactFrame<TemplatingMessageIOGateway>(lru, (int32)(MUSCLE_MESSAGE_ENCODING_DEFAULT + (int) cfg.i("renc", 0)))); break;
          case GW_TEXT:
          {
             PlainTextMessageIOGateway * s = new PlainTextMessageIOGateway; static const char * eols[] = {"\r\n", "\n", "\r"};
@@ -291,7 +297,24 @@ inline void Exec(const Plan & plan, RunResult & res)
          else if (t[1] == "sr") h.b2a.SetSched(false, v);
       }
       else if ((t[0] == "msg")&&(t.size() >= 3)) h.Enqueue(GenMessage(ToU(t[1]), (int) ToI(t[2])));
-      else if ((t[0] == "rmsg")&&(t.size() >= 3)&&(h.gw == GW_WS)&&(h.R())) {MessageRef m = GenMessage(ToU(t[1]), (int) ToI(t[2])); h.sentBack.push_back(Flat(m)); if (h.R()->AddOutgoingMessage(m).IsError()) Fail("harness", "AddOutgoingMessage failed"); h.res.stats.inc("msgs_sent_reverse");}
+      else if (t[0] == "reset")
+      {
+         // a reconnect: everything in flight is delivered first (fault-free, bounded), then BOTH ends are Reset() and the run carries on with the same objects
+         const bool resettable = (h.gw == GW_BIN)||(h.gw == GW_TMPL)||(h.gw == GW_TEXT)||(h.gw == GW_SLIP)||((h.gw == GW_RAW)&&(h.cfg.i("minchunk", 0) == 0));
+         if ((resettable)&&(h.S())&&(h.R()))
+         {
+            const std::vector<uint32_t> sv[4] = {h.a2b.wsched, h.a2b.rsched, h.b2a.wsched, h.b2a.rsched};
+            const std::vector<uint32_t> wholeBuf(1, 0xffffffffu);
+            h.a2b.SetSched(true, wholeBuf); h.a2b.SetSched(false, wholeBuf); h.b2a.SetSched(true, wholeBuf); h.b2a.SetSched(false, wholeBuf);
+            const int bnd = 64 + 4*(int)(h.sent.size() + h.sentBack.size()) + (int)(((h.gw == GW_RAW)&&(!h.sent.empty())) ? (2*(h.sent[0].size()/8192)) : 0);
+            for (int i=0; (i<bnd)&&((h.AllDelivered() == false)||(h.SenderIdle() == false)); i++) {h.DoOut(0); h.DoIn(0); h.DoBack(); h.CheckPrefix("pre-reset drain");}
+            if ((h.AllDelivered())&&(h.a2b.q.empty())&&(h.b2a.q.empty())) {h.S()->Reset(); h.R()->Reset(); res.stats.inc("p.reset_and_reuse");}
+            else res.stats.inc("p.reset_skipped_not_quiescent");
+            h.a2b.SetSched(true, sv[0]); h.a2b.SetSched(false, sv[1]); h.b2a.SetSched(true, sv[2]); h.b2a.SetSched(false, sv[3]);
+         }
+      }
+      else if ((t[0] == "rsetenc")&&(t.size() >= 2)) {MessageIOGateway * mg = dynamic_cast<MessageIOGateway *>(h.R()); if ((mg)&&(h.gw != GW_WS)) mg->SetOutgoingEncoding(MUSCLE_MESSAGE_ENCODING_DEFAULT + (int32)(ToU(t[1]) % 10));}
+      else if ((t[0] == "rmsg")&&(t.size() >= 3)&&((h.gw == GW_WS)||(h.gw == GW_BIN)||(h.gw == GW_TMPL))&&(h.R())) {MessageRef m = GenMessage(ToU(t[1]), (int) ToI(t[2])); h.sentBack.push_back(Flat(m)); if (h.R()->AddOutgoingMessage(m).IsError()) Fail("harness", "AddOutgoingMessage failed"); h.res.stats.inc("msgs_sent_reverse");}
       else if ((t[0] == "text")&&(t.size() >= 3))
       {
          Rng r(ToU(t[1]), "text"); MessageRef m = GetMessageFromPool(PR_COMMAND_TEXT_STRINGS);
@@ -333,7 +356,7 @@ inline void Exec(const Plan & plan, RunResult & res)
    // drain: first under the plan's own chunk schedules, then fault-free with a step bound (bounded liveness)
    SetCurOp("C03 drain (faulty schedules)");
    WatchdogArm(0);
-   for (int i=0; (i<3000)&&(h.AllDelivered() == false); i++) {h.DoOut(0); h.DoIn(0); h.DoBack(); h.CheckPrefix("drain");}
+   for (int i=0; (i<3000)&&((h.AllDelivered() == false)||(h.gotBack.size() < h.sentBack.size())); i++) {h.DoOut(0); h.DoIn(0); h.DoBack(); h.CheckPrefix("drain");}
    SetCurOp("C03 drain (fault-free)");
    const std::vector<uint32_t> whole(1, 0xffffffffu);
    h.a2b.SetSched(true, whole); h.a2b.SetSched(false, whole); h.b2a.SetSched(true, whole); h.b2a.SetSched(false, whole);
@@ -341,9 +364,9 @@ inline void Exec(const Plan & plan, RunResult & res)
    // for raw streams a unit is one minimum-size chunk, or up to 8192 bytes (the gateway's scratch buffer) without a minimum
    const size_t rawBytes = ((h.gw == GW_RAW)&&(!h.sent.empty())) ? h.sent[0].size() : 0;
    const size_t rawUnit  = (h.cfg.i("minchunk", 0) > 0) ? (size_t) h.cfg.i("minchunk", 0) : 8192;
-   const int bound = 64 + 4*(int) h.sent.size() + (int)(2*(rawBytes/rawUnit));
+   const int bound = 64 + 4*(int)(h.sent.size() + h.sentBack.size()) + (int)(2*(rawBytes/rawUnit));
    int steps = 0;
-   while((h.AllDelivered() == false)&&(steps < bound)) {h.DoOut(0); h.DoIn(0); h.DoBack(); h.CheckPrefix("drain"); steps++;}
+   while(((h.AllDelivered() == false)||(h.gotBack.size() < h.sentBack.size()))&&(steps < bound)) {h.DoOut(0); h.DoIn(0); h.DoBack(); h.CheckPrefix("drain"); steps++;}
    for (int i=0; i<4; i++) {h.DoOut(0); h.DoIn(0); h.DoBack();}   // nothing further may arrive
    h.CheckPrefix("end");
    if (h.AllDelivered() == false)
